@@ -41,6 +41,7 @@ class FieldArrayModel(FieldCompositeModel):
         self.product_expr_btor = None
         self.product_expr = None
         
+        self.presolve_len = None
         self.size = FieldScalarModel(
             "size",
             32,
@@ -85,6 +86,8 @@ class FieldArrayModel(FieldCompositeModel):
         # have a random size
         if self.is_rand_sz:
             self.size.set_used_rand(True)
+            # Number of elements the user sees before this call
+            self.presolve_len = len(self.field_l)
         else:
             self._set_size(len(self.field_l))
         FieldCompositeModel.pre_randomize(self, visited)
